@@ -37,6 +37,7 @@ func TestMain(m *testing.M) {
 	vh.Rule("also: Info.DebugLogPackages is on in a quarter of the cases (every package is printed while it is sent / received)")
 	vh.QuietLog()
 	vh.Rule("also: after a response that announced a packet size, a request longer than one packet is sent on the same (older) channel: every packet but the last has exactly the announced size, only the last carries EOM, no byte missing")
+	vh.Rule("also: failing callbacks that return (true, err)")
 	vh.Main(m, "C11")
 }
 
